@@ -217,11 +217,13 @@ class Sim:
         return self.ch.flip(p)
 
     # -- quiescence ------------------------------------------------------------
-    def quiescent(self, horizon=0.0):
-        """awaitable: resolves when the ready queue is empty, no actor is enabled and no timer is
-        due within `horizon` virtual seconds (short sleeps such as throttling are waited out)"""
+    def quiescent(self, horizon=0.0, unless=None, patience=5000.0):
+        """awaitable: resolves when the ready queue is empty, no actor is enabled, no timer is
+        due within `horizon` virtual seconds and `unless()` (e.g. "a handler is in the middle of a
+        command, sleeping") is false.  While `unless()` holds the clock keeps advancing, for at most
+        `patience` virtual seconds (then the waiter is released and the caller judges liveness)."""
         fut = self.loop.create_future()
-        self.quiet_waiters.append((fut, horizon))
+        self.quiet_waiters.append((fut, horizon, unless, [None, patience]))
         return fut
 
     def is_quiet(self):
@@ -263,14 +265,19 @@ class Sim:
             if not acts and self.quiet_waiters:
                 gap = None if nxt is None else nxt - self.clock.mono
                 keep, woke = [], False
-                for w, hz in self.quiet_waiters:
+                for w, hz, unless, pat in self.quiet_waiters:
                     if w.done():
                         continue
-                    if gap is None or gap > hz:
+                    busy = False
+                    if unless is not None and gap is not None and unless():
+                        if pat[0] is None:
+                            pat[0] = self.clock.mono
+                        busy = (self.clock.mono - pat[0]) <= pat[1]
+                    if (gap is None or gap > hz) and not busy:
                         w.set_result(None)
                         woke = True
                     else:
-                        keep.append((w, hz))
+                        keep.append((w, hz, unless, pat))
                 self.quiet_waiters = keep
                 if woke:
                     self.note("quiet")
